@@ -53,7 +53,7 @@ class Tokenizer:
             elif self._stack:
                 tok = self._stack.pop()
             else:
-                tok = next(self._tokengen)
+                tok = self._next_raw()
             if self.is_blank(tok):
                 continue
 
@@ -61,6 +61,20 @@ class Tokenizer:
             if not self._path and tok.start[0] not in self._lines:
                 self._lines[tok.start[0]] = tok.line
         return self._tokens[self._index]
+
+    def _next_raw(self) -> TokenInfo:
+        """Next token of the underlying generator; running past the end of input is a syntax error."""
+        try:
+            return next(self._tokengen)
+        except StopIteration:
+            last = self._tokens[-1] if self._tokens else None
+            raise self._syntax_error("unexpected EOF while parsing", last) from None
+
+    def _syntax_error(self, message: str, tok: TokenInfo | None) -> SyntaxError:
+        if tok is None:
+            return SyntaxError(message, (self._path or "<unknown>", 1, 1, "", 1, 1))
+        args = (self._path or "<unknown>", tok.start[0], tok.start[1] + 1, tok.line, tok.end[0], tok.end[1] + 1)
+        return SyntaxError(message, args)
 
     def is_blank(self, tok: TokenInfo) -> bool:
         if self._proc_macro and tok.type == Token.WS:
@@ -82,7 +96,7 @@ class Tokenizer:
         string = ""
         line = ""
         while True:
-            tok = next(self._tokengen)
+            tok = self._next_raw()
             if tok.type == Token.OP and tok.string[-1] in "([{":  # push paren level
                 paren_level.append(tok.string[-1])
             if paren_level:
@@ -90,7 +104,7 @@ class Tokenizer:
                     if paren_level[-1] == opener:
                         paren_level.pop()
                     else:
-                        raise SyntaxError(f"Unmatched closing paren {tok.string} at {tok.start}")
+                        raise self._syntax_error(f"Unmatched closing paren {tok.string} at {tok.start}", tok)
             else:
                 if tok.is_exact_type(")"):
                     self._stack.append(tok)
@@ -111,8 +125,9 @@ class Tokenizer:
             # empty params
             return self._stack.pop()
 
-        assert start is not None
-        assert end is not None
+        if start is None or end is None:
+            # a delimiter with nothing before it (e.g. ``f!(,)``): hand it to the grammar as it is
+            return tok
         if not string.strip():
             return TokenInfo(Token.WS, string, start, end, line)
         return TokenInfo(Token.MACRO_PARAM, string, start, end, line)
